@@ -112,6 +112,12 @@ class STIXdatetime(dt.datetime):
     def __repr__(self):
         return "'%s'" % format_datetime(self)
 
+    def __deepcopy__(self, memo):
+        # Instances are immutable.  (The default implementation re-creates
+        # the object from datetime's pickle state, which loses the precision
+        # metadata.)
+        return self
+
 
 def deduplicate(stix_obj_list):
     """Deduplicate a list of STIX objects to a unique set.
